@@ -477,6 +477,7 @@ package boltz
 //@   props C14
 //@   pure
 //@   ensures[typed-directed-or-empty] result != nil && (istype(result, ast.emptyCursor) || (forward && istype(result, *TypedForwardBoltCursor) && as(result, *TypedForwardBoltCursor).fieldType == TypeString) || (!forward && istype(result, *TypedReverseBoltCursor) && as(result, *TypedReverseBoltCursor).fieldType == TypeString))
+//@   ensures[empty-only-when-the-value-has-no-entries-bucket] pathB(tx, arr(index.indexPath), len(index.indexPath)) != 0 && sel(bktHas[pathB(tx, arr(index.indexPath), len(index.indexPath))], str(key)) && sel(bktSub[pathB(tx, arr(index.indexPath), len(index.indexPath))], str(key)) != 0 ==> !istype(result, ast.emptyCursor)
 //@ func (*setIndex).OpenKeyCursor
 //@   props C14
 //@   pure
@@ -513,7 +514,8 @@ package boltz
 //@   requires !curDesc[scanner.cursor]
 //@   modifies scanner.current, scanner.offset, scanner.collected, curPos[scanner.cursor], scanner.rowCursor.currentRow, symRow[scanner.rowCursor]
 //@   ensures[at-or-after] scanner.current != nil ==> !(str(scanner.current) < str(val))
-//@   invariant 1: scanner.cursor != nil && scanner.rowCursor != nil && scanner.filter != nil && scanner.store != nil && 0 <= curPos[scanner.cursor] && curPos[scanner.cursor] <= curLen[scanner.cursor] && 0 <= scanner.offset && scanner.offset <= max(scanner.targetOffset, 0) && 0 <= scanner.collected
+//@   lensures[a-scan-that-is-already-there-stays] !ok && old(scanner.current) != nil && !(old(str(scanner.current)) < str(val)) ==> scanner.current == old(scanner.current) && curPos[scanner.cursor] == old(curPos[scanner.cursor])
+//@   invariant 1: scanner.cursor != nil && scanner.rowCursor != nil && scanner.filter != nil && scanner.store != nil && 0 <= curPos[scanner.cursor] && curPos[scanner.cursor] <= curLen[scanner.cursor] && 0 <= scanner.offset && scanner.offset <= max(scanner.targetOffset, 0) && 0 <= scanner.collected && (old(scanner.current) != nil && !(old(str(scanner.current)) < str(val)) ==> scanner.current == old(scanner.current) && curPos[scanner.cursor] == old(curPos[scanner.cursor]))
 
 // ValidIdsCursors: the ids of the wrapped cursor for which the (extended) store has data
 // entBkt(store, tx, id): the bucket of entity id (a stable name while the entity exists)
